@@ -66,18 +66,26 @@ def checkStringSite (fmt : String) : TrySite := site ("lib/check/msgformat/" ++ 
 /-- the `try` around `self.backend.FormatString(s)` for a msgid of a non-template in `check_message` -/
 def checkMessageSite (fmt : String) : TrySite := site ("lib/check/msgformat/__init__.py[" ++ fmt ++ "]") "Checker.check_message" 0
 
-/-- **every exception class a strformat module defines** (enumerated from the live module) derives from the module's `Error`, is
-    caught by `check_string` of the checker registered for the format, by a clause that emits exactly that format's
-    `…-format-string-error` tag and then falls through to `return fmt` — and is swallowed (`return`) by `check_message` when it
-    parses a msgid -/
+/-- the file of a strformat backend, as it appears in `raiseSites` -/
+def strformatFile (fmt : String) : String := "lib/strformat/" ++ backendFile fmt ++ ".py"
+
+/-- an exception of class `c` raised while parsing a string of format `fmt` is reported by `check_string` of the checker
+    registered for the format as exactly that format's `…-format-string-error` tag (the clause then falls through to
+    `return fmt`), and is swallowed (`return`) by `check_message` when it parses a msgid -/
+def caughtAsError (fmt : String) (c : Cls) : Bool :=
+  ((dispatch (checkStringSite fmt).handlers c).map (fun h => (h.tags, h.fin)) == some ([fmt ++ "-format-string-error"], .fallthrough)) &&
+  ((dispatch (checkMessageSite fmt).handlers c).map (fun h => (h.tags, h.fin)) == some ([], .ret))
+
+/-- **every own-`Error` subclass of every strformat module** (the classes are enumerated from the live module) is caught by
+    `check_string` / `check_message` of its caller as described by `caughtAsError`; and so is **every class of the module that
+    one of its `raise` statements names**, whether or not it derives from `Error` — a class re-parented away from `Error` that is
+    still raised breaks this pin, one that is only ever recorded as a warning does not (it is `warnings_caught`'s business) -/
 theorem strformat_errors_caught :
     (ownErrors.map (·.1) = ["c", "perl-brace", "python", "python-brace"]) ∧
     (ownErrors.all fun (fmt, _, err, defined) =>
       defined.contains err &&
-      defined.all fun c =>
-        isSub c err &&
-        ((dispatch (checkStringSite fmt).handlers c).map (fun h => (h.tags, h.fin)) == some ([fmt ++ "-format-string-error"], .fallthrough)) &&
-        ((dispatch (checkMessageSite fmt).handlers c).map (fun h => (h.tags, h.fin)) == some ([], .ret))) = true := by
+      (defined.all fun c => !isSub c err || caughtAsError fmt c) &&
+      (raiseSites.all fun (file, _, c) => !(file == strformatFile fmt && defined.contains c) || caughtAsError fmt c)) = true := by
   decide
 
 /-- the checkers use the backends whose classes were enumerated -/
@@ -314,19 +322,21 @@ theorem pyCheckString_error_tag (s : List Char) (e : PyFmt.PErr) (h : PyFmt.pars
     from its module's `Error` — the closure statement C13 is to deliver for lib/strformat/pybrace.py and perlbrace.py
     (they record no warnings: `warnings_caught`) -/
 theorem braceCheckString_nocrash {φ : Type} (fmt : String) (hf : fmt = "python-brace" ∨ fmt = "perl-brace") (p : Parse φ)
-    (c13_own : ∀ c, p = .raised c → ∃ row ∈ ownErrors, row.1 = fmt ∧ row.2.2.2.contains c = true) :
+    (c13_own : ∀ c, p = .raised c → ∃ row ∈ ownErrors, row.1 = fmt ∧ row.2.2.2.contains c = true ∧ isSub c row.2.2.1 = true) :
     (checkString (checkStringSite fmt) none p).uncaught = none := by
   apply checkString_nocrash
   · intro c hc
-    obtain ⟨row, hrow, hfmt, hc'⟩ := c13_own c hc
+    obtain ⟨row, hrow, hfmt, hc', hsub⟩ := c13_own c hc
     have hall := strformat_errors_caught.2
     rw [List.all_eq_true] at hall
     have h1 := hall row hrow
     obtain ⟨f, b, err, defined⟩ := row
-    simp only at hfmt hc'
+    simp only at hfmt hc' hsub
     subst hfmt
     simp only [Bool.and_eq_true, List.all_eq_true] at h1
-    have h2 := (h1.2 c (List.contains_iff_mem.1 hc')).1.2
+    have h2 := h1.1.2 c (List.contains_iff_mem.1 hc')
+    rw [hsub] at h2
+    simp only [Bool.not_true, Bool.false_or, caughtAsError, Bool.and_eq_true] at h2
     cases hd : dispatch (checkStringSite f).handlers c with
     | none => rw [hd] at h2; simp at h2
     | some h => rfl
